@@ -761,11 +761,21 @@ def _us(x):
     return _ts.td_us(x)
 
 
+def _mk_td(us):
+    """timedelta of `us` microseconds (symbolic in a proof, a real timedelta in a replay)"""
+    return _ts.STimedelta(us) if isinstance(us, _Sym) else _timedelta(microseconds=int(us))
+
+
+_mk_td.__pyvc_native__ = True
+
+
 _us.__pyvc_native__ = True
 
 
 def _usd(d):
     """a (symbolic) datetime as its microsecond count"""
+    if isinstance(d, _datetime):
+        return (d - _datetime(1, 1, 1)) // _timedelta(microseconds=1)
     return _Sym(d.us())
 
 
@@ -778,6 +788,8 @@ def _thm_match(k1, k2, with_interval):
         kinds["a%d" % i], kinds["b%d" % i] = _dtk("a%d" % i, 6), _dtk("b%d" % i, 6)
     for j in range(k2):
         kinds["c%d" % j], kinds["d%d" % j] = _dtk("c%d" % j, 6), _dtk("d%d" % j, 6)
+    if with_interval:
+        kinds["mi_us"] = "int"
 
     @theorem(P, "match[%d x %d,%s]" % (k1, k2, "max_interval" if with_interval else "no max_interval"), **kinds)
     def thm(**t):
@@ -787,8 +799,8 @@ def _thm_match(k1, k2, with_interval):
         for lo, hi in p_times + s_times:
             requires(lo <= hi, lo.year >= 1971, hi.year >= 1971, hi.year <= 2200)
         if with_interval:
-            mi = _ts.STimedelta(ctx.fresh("max_interval_us", "int"))
-            requires(mi.total_us >= 0, mi.total_us <= 10 * 86400 * 10**6)
+            requires(t["mi_us"] >= 0, t["mi_us"] <= 10 * 86400 * 10**6)
+            mi = _mk_td(t["mi_us"])
         else:
             mi = None
         ctx.ghost["c03_ghost_tree"] = True
@@ -811,6 +823,8 @@ def _thm_match(k1, k2, with_interval):
     return thm
 
 
-for _k1, _k2 in ((1, 1), (1, 2), (2, 2)):
+import os as _os                                                          # noqa: E402
+_SIZES = ((1, 1), (1, 2), (2, 1)) if _os.environ.get("VERIF_TIER_EFFECTIVE", "quick") == "quick" else ((1, 1), (1, 2), (2, 1), (2, 2))
+for _k1, _k2 in _SIZES:
     _thm_match(_k1, _k2, False)
     _thm_match(_k1, _k2, True)
